@@ -1459,6 +1459,10 @@ class xRFM:
                 leaf_model = RFM(**self.rfm_params['model'],
                                  categorical_info=self.categorical_info,
                                  device=self.device, verbose=self.verbose, **self.extra_rfm_params_)
+                if getattr(self, 'solver', None) is not None:
+                    # the solver given in rfm_params['fit'] (saved under 'solver') decides how a leaf decodes its outputs
+                    # (log_reg: sigmoid before the label decoder), so a restored leaf must know it
+                    leaf_model.solver = self.solver
                 leaf_model.kernel_obj.bandwidth = tree['bandwidth']
                 leaf_model.weights = tree['weights']
                 leaf_model.M = tree['M']
